@@ -59,12 +59,22 @@ type oracle struct {
 	audits    int
 	evictions int
 	sctSeen   map[[32]byte]sctRec
+
+	preTamper       []*ref.Entry
+	preTamperLock   int
+	firstTamperStep int
+	intended        map[int64][]*ref.Entry
+	ackSeen         map[string][2]int64
+	casPending      map[[2]int]bool
+	staleRegress    bool
+	otherCkpts      [][]byte
 }
 
 func newOracle(w *World) *oracle {
 	return &oracle{w: w, gt: map[int]*groundTruth{}, admitted: map[[32]byte]int{},
 		itemsByKey: map[[32]byte]*Item{}, clockReadings: map[int64]bool{}, sigSeen: map[string][]byte{},
-		casLost: map[[2]int]int{}, lockOpsAfterLoss: map[[2]int]int{}, sctSeen: map[[32]byte]sctRec{}}
+		casLost: map[[2]int]int{}, lockOpsAfterLoss: map[[2]int]int{}, sctSeen: map[[32]byte]sctRec{},
+		intended: map[int64][]*ref.Entry{}, ackSeen: map[string][2]int64{}, casPending: map[[2]int]bool{}}
 }
 
 func (o *oracle) truth(st *Store) *groundTruth {
@@ -97,6 +107,9 @@ func (o *oracle) onUpload(inst *Instance, inc int, st *Store, key string, p *pen
 		}
 	} else if !imm && !w.auto {
 		o.v("C04", "immutable-flag-missing", "key %s uploaded without Immutable", key)
+	}
+	if strings.HasPrefix(key, "staging/") || strings.HasPrefix(key, "tile/data/") {
+		o.recordIntended(key, p.data)
 	}
 	if cur, ok := st.objs[key]; ok && cur.Opts.Immutable {
 		if bytes.Equal(cur.Data, p.data) {
@@ -165,6 +178,9 @@ func (o *oracle) onDiscard(inst *Instance, inc int, st *Store, key string, p *pe
 		switch {
 		case !ok:
 			o.v("C03", "discard-unparsed", "discard of malformed staging key %s", key)
+		case pub != nil && pub.STH != nil && pub.STH.Size < n && pub.StaleLock:
+			w.sim.ViolateSig("C03", "discard-early", "stale-instance-publish",
+				"i%d.%d discards %s while the published checkpoint (written by a stale instance) has size %d", inst.idx, inc, key, pub.STH.Size)
 		case pub == nil || pub.STH == nil || pub.STH.Size < n:
 			sz := int64(-1)
 			if pub != nil && pub.STH != nil {
@@ -235,6 +251,7 @@ func (o *oracle) onLockCommit(inst *Instance, inc int, id [32]byte, b []byte, ho
 	}
 	w.note("lock %s i%d.%d size=%d root=%s ts=%d", how, inst.idx, inc, ev.STH.Size, ev.STH.Root, ev.STH.Timestamp)
 	o.checkSigned(inst, ev)
+	o.checkVerifierStrict(inst, ev)
 	if len(hist) > 0 {
 		prev := hist[len(hist)-1]
 		if prev.STH != nil {
@@ -350,6 +367,7 @@ func (o *oracle) onPublish(inst *Instance, inc int, st *Store, b []byte) {
 		if regress {
 			if stale && len(w.insts) > 1 {
 				// Known finding C06-1: a stale instance publishes over a newer checkpoint.
+				o.staleRegress = true
 				w.sim.ViolateSig("C01", "published-regress", "stale-instance-publish",
 					"published checkpoint went from size %d/ts %d to size %d/ts %d (publisher i%d.%d holds a stale lock value)",
 					prev.STH.Size, prev.STH.Timestamp, ev.STH.Size, ev.STH.Timestamp, inst.idx, inc)
@@ -368,6 +386,9 @@ func (o *oracle) onPublish(inst *Instance, inc int, st *Store, b []byte) {
 
 func (o *oracle) onCASLost(inst *Instance, inc int) {
 	o.casLost[[2]int{inst.idx, inc}] = o.w.sim.Step
+	if !o.w.auto {
+		o.casPending[[2]int{inst.idx, inc}] = true
+	}
 	o.w.sim.Probe("cas.lost")
 	o.w.note("cas lost i%d.%d", inst.idx, inc)
 }
@@ -477,6 +498,9 @@ func (o *oracle) leafAt(st *Store, size, idx int64) (*ref.Entry, error) {
 // audit is M-audit(n, root): the objects durable in st right now render
 // exactly a tree of the checkpoint's size with its root.
 func (o *oracle) audit(st *Store, sth *ref.VerifiedSTH, why string) bool {
+	if o.tampered {
+		return true // storage is no longer sunlight's doing; C08 has its own oracle
+	}
 	o.audits++
 	g := o.truth(st)
 	n := sth.Size
@@ -724,15 +748,33 @@ func (o *oracle) checkAcks() {
 		}
 		o.checkOutcome(in, s)
 		if s.Err != nil {
+			if s.Item.ID >= 0 && !contains(w.failedItems, s.Item.ID) {
+				w.failedItems = append(w.failedItems, s.Item.ID)
+			}
 			continue
+		}
+		for i, id := range w.failedItems {
+			if id == s.Item.ID {
+				w.failedItems = append(w.failedItems[:i], w.failedItems[i+1:]...)
+				break
+			}
 		}
 		o.okAcks = append(o.okAcks, s)
 		o.checkAckNow(in, s, "ack")
+		// C07: one (index, timestamp) per entry within a cache epoch
+		k := fmt.Sprintf("%d/%d/%x", s.Inst, s.cacheEpoch, s.Item.Key)
+		if prev, ok := o.ackSeen[k]; ok && prev != [2]int64{s.Index, s.Time} {
+			o.v("C07", "ack-differs", "item %d acknowledged as idx=%d ts=%d and as idx=%d ts=%d within one cache epoch", s.Item.ID, prev[0], prev[1], s.Index, s.Time)
+		}
+		o.ackSeen[k] = [2]int64{s.Index, s.Time}
 	}
 }
 
 // checkAckNow is the C02 oracle for one acknowledgement against durable state.
 func (o *oracle) checkAckNow(in *Instance, s *Submission, when string) bool {
+	if o.tampered {
+		return true
+	}
 	st := in.store
 	pub := o.lastPublished(st)
 	if pub == nil || pub.STH == nil {
@@ -750,7 +792,7 @@ func (o *oracle) checkAckNow(in *Instance, s *Submission, when string) bool {
 		pub = &CkptEvent{STH: sth}
 	}
 	if s.Index >= pub.STH.Size {
-		if pub.StaleLock && when != "ack" {
+		if pub.StaleLock {
 			o.w.sim.ViolateSig("C02", "ack-not-covered", "stale-instance-publish",
 				"sub %d idx %d not covered by the published checkpoint of size %d (%s)", s.ID, s.Index, pub.STH.Size, when)
 			return false
@@ -803,6 +845,7 @@ func (o *oracle) finalChecks() {
 		}
 	}
 	o.checkLeafCounts()
+	o.checkTamperHistory()
 }
 
 func (o *oracle) checkPrefix(ev *CkptEvent) {
